@@ -118,7 +118,11 @@ theorem type_never_panics (c : Ctx) (cmd : List Bytes) (s : State) (w : String) 
     `str[0]`: index out of range, the former class `acl-setuser-panic`). For every ACL state, every argument
     vector and every connection the handler does not end in a panic: the arity guard answers the command without
     a user name, UpdateUser refuses an empty token before its loops, and every later index into a token is
-    guarded by a length test (`Acl.updateTok_cons_no_panic`). -/
+    guarded by a length test (`Acl.updateTok_cons_no_panic`). The argument vector is arbitrary, so this covers the
+    second repaired crash of this handler too: a key or channel pattern that does not compile (`~[`, `%R~[b-a]`,
+    `+&[`) used to be stored and `glob.MustCompile` panicked in CompileGlobs; UpdateUser now compiles every
+    pattern of the rule list first and answers `invalid glob pattern` (`Props.C11.setuser_malformed_pattern_refused`),
+    so CompileGlobs only ever sees patterns that compile (patterns entering by ACL LOAD are outside the model). -/
 theorem acl_setuser_never_panics (a : Acl.AclState) (cid : Nat) (cmd : List Bytes) (sha : Bytes)
     (h1 : toLower (cmd.headD []) = b "acl") (h2 : toLower (cmd.getD 1 []) = b "setuser") :
     (Acl.aclHandler a cid cmd sha).2 ≠ .panic :=
@@ -127,6 +131,9 @@ theorem acl_setuser_never_panics (a : Acl.AclState) (cid : Nat) (cmd : List Byte
 /-- the repaired answers on the two inputs of the former class -/
 example : (Acl.aclHandler ⟨[], [], [], true⟩ 0 [b "acl", b "setuser"] []).2 matches .err _ := by decide
 example : (Acl.aclHandler ⟨[], [], [], true⟩ 0 [b "acl", b "setuser", b "alice", []] []).2 matches .err _ := by decide
+example : (Acl.aclHandler ⟨[], [], [], true⟩ 0 [b "acl", b "setuser", b "alice", b "~["] []).2 matches .err _ := by decide
+example : (Acl.aclHandler ⟨[], [], [], true⟩ 0 [b "acl", b "setuser", b "alice", b "on", b "%R~[b-a]"] []).2 matches .err _ := by decide
+example : (Acl.aclHandler ⟨[], [], [], true⟩ 0 [b "ACL", b "SETUSER", b "alice", b "+&["] []).2 matches .err _ := by decide
 
 /-- … and the slice the handler takes is within the value for every start and end -/
 theorem getrange_slice_within_value (value : Bytes) (start end_ : Int) :
